@@ -198,6 +198,30 @@ def class_lookalike(rng, atoms):
     return atoms[:k] + [a[:j] + rep + a[j + 1:]] + atoms[k + 1:]
 
 
+# Characters whose str.lower() / str.upper() / str.casefold() has a different LENGTH than the original: code that searches
+# in a case-mapped copy of a piece of text and applies the index to the original (or the other way round) is off by one
+# per such character before the match.
+_LENGTH_CHANGERS = ["\u0130", "\xdf", "\ufb01", "\u0149", "\u01f0", "\u0390", "\ufb06", "\u1e9e", "\u0130\u0130", "\ufb03"]
+_LENGTH_ATOMS = ["<script>var a=1;b()</script>x<b>y</b>", "<style>p{color:red}</style>x<i>y</i>", "<title>ab cd</title>x<p>y",
+                 "<textarea>ab cd</textarea>x<p>y", "<xmp>ab<b>cd</xmp>x<p>y", "<!--ab cd-->x<p>y", "<a href='abc' title=\"de\">x</a>y",
+                 "<!DOCTYPE html PUBLIC \"ab\" \"cd\">x", "<svg><![CDATA[ab cd]]></svg>x", "<script><!--ab--></script>x<p>y",
+                 "<noscript>ab cd</noscript>x", "<iframe>ab cd</iframe>x<p>y", "<script>ab</SCRIPT>x<p>y", "<title>ab</TITLE >x",
+                 "<script>a<b</script>c</script>x", "<p>ab cd</p>x", "<div class=abc>x</div>y", "&amp;ab&lt;cd", "<plaintext>ab cd",
+                 "<script>ab\n</script\n>x<p>y", "<style>ab</style/>x", "<noframes>ab</noframes>x"]
+
+
+def length_changer(rng, atoms):
+    """Insert 1-3 characters whose case mapping changes the length into one atom."""
+    if not atoms:
+        return atoms
+    k = rng.randrange(len(atoms))
+    a = atoms[k]
+    for _ in range(rng.randint(1, 3)):
+        j = rng.randint(0, len(a))
+        a = a[:j] + rng.choice(_LENGTH_CHANGERS) + a[j:]
+    return atoms[:k] + [a] + atoms[k + 1:]
+
+
 def soup(rng, surrogates_ok=False, max_atoms=40, long_prob=0.05):
     """A list of atoms."""
     weights = make_weights(rng)
@@ -219,6 +243,12 @@ def soup(rng, surrogates_ok=False, max_atoms=40, long_prob=0.05):
         atoms = class_lookalike(rng, atoms)
     elif r2 < 0.11:
         atoms = class_lookalike(rng, atoms)
+    r3 = rng.random()
+    if r3 < 0.06:
+        k = rng.randint(0, 3)
+        atoms = atoms[:k] + length_changer(rng, [rng.choice(_LENGTH_ATOMS)]) + atoms[3:6]
+    elif r3 < 0.08:
+        atoms = length_changer(rng, atoms)
     if rng.random() < long_prob:
         atoms = _make_long(rng, atoms, surrogates_ok)
     return atoms
